@@ -239,6 +239,8 @@ func c11taKeySets(c *Ctx) []c11taSet {
 		{"middle-differs-long", []string{c11taRep("a", 110) + "X" + c11taRep("b", 60), c11taRep("a", 110) + "Y" + c11taRep("b", 60), c11taRep("a", 110) + c11taRep("b", 60),
 			c11taRep("a", 85) + "X" + c11taRep("a", 85), c11taRep("a", 85) + "Y" + c11taRep("a", 85), c11taRep("é", 8) + "X" + c11taRep("é", 8), c11taRep("é", 8) + "Y" + c11taRep("é", 8)}},
 		{"suffix-sorts-first", []string{"matched_normal", "normal", "a_b", "b", "xb", "0_1", "1", "_1"}},
+		{"near-equal-siblings", c11taNoDollar(c11NearEqualFamily(c11NearBases[0]))},
+		{"near-equal-siblings-prng", c11taNoDollar(c11NearSubset(c, c11NearBase(c), 8))},
 		{"empty-key", []string{"", "a"}},
 		{"quote-backslash", []string{"\"", "\\", "a\"b", "a\\b", "'", "`", "*", "?", "~", "#", "&", ";", "|", "<", ">", "(", "{"}},
 	}
@@ -721,4 +723,14 @@ func c11LongKeys(c *Ctx) {
 		}
 		c11CheckDistinct(c, forks, "long-keys")
 	}
+}
+
+func c11taNoDollar(ks []string) []string {
+	var out []string
+	for _, k := range ks {
+		if !strings.Contains(k, "$") {
+			out = append(out, k)
+		}
+	}
+	return out
 }
